@@ -337,6 +337,11 @@ func newRuntimeState(compiled config.Compiled) *runtimeState {
 func (s *runtimeState) updateAll(compiled config.Compiled) {
 	s.mu.Lock()
 	defer s.mu.Unlock()
+	s.updateAllLocked(compiled)
+}
+
+// updateAllLocked swaps the route table, limits and policies; s.mu must be held.
+func (s *runtimeState) updateAllLocked(compiled config.Compiled) {
 	s.routes = compiled.Routes
 	s.pathToRoute = compiled.PathToRoute
 	s.trendSignals = compiled.Defaults.TrendSignals
@@ -846,6 +851,13 @@ func queueTrendSignalConfigFromCompiled(in config.TrendSignalsConfig) queue.Back
 }
 
 func (s *runtimeState) loadAuth(compiled config.Compiled) error {
+	return s.loadAuthThen(compiled, nil)
+}
+
+// loadAuthThen loads every secret of compiled and installs the authenticators;
+// swap (if not nil) runs inside the same critical section, so that a reload
+// can switch authenticators and route table at one instant.
+func (s *runtimeState) loadAuthThen(compiled config.Compiled, swap func()) error {
 	tokens := make([][]byte, 0, len(compiled.PullAPI.AuthTokens))
 	for _, ref := range compiled.PullAPI.AuthTokens {
 		b, err := secrets.LoadRef(ref)
@@ -998,6 +1010,9 @@ func (s *runtimeState) loadAuth(compiled config.Compiled) error {
 	s.basicByRoute = basicByRoute
 	s.forwardByRoute = forwardByRoute
 	s.hmacByRoute = hmacByRoute
+	if swap != nil {
+		swap()
+	}
 	s.mu.Unlock()
 	return nil
 }
@@ -1129,12 +1144,14 @@ func reloadConfig(path string, running config.Compiled, state *runtimeState, log
 		return running, false
 	}
 
-	if err := state.loadAuth(compiled); err != nil {
+	// Authenticators and the route table / limits are switched under one lock
+	// acquisition: between two separate swaps a request could be routed by the
+	// old table and authenticated (or not at all) by the new maps.
+	verifhook.Point("app.reload.between_swaps")
+	if err := state.loadAuthThen(compiled, func() { state.updateAllLocked(compiled) }); err != nil {
 		logger.Error("config_reload_failed", slog.Any("err", err), slog.String("trigger", trigger))
 		return running, false
 	}
-	verifhook.Point("app.reload.between_swaps")
-	state.updateAll(compiled)
 
 	logger.Info("config_reloaded_ok", slog.String("trigger", trigger))
 	return compiled, true
